@@ -3,6 +3,7 @@
 /verif/seeded/*/meta.json and /verif/selfmut/results.json."""
 import json, glob, os, re
 NOTES = {
+  'C06-m4': 'reorders operations inside one bulk; C06 takes a flushed bulk as atomic (stated limit of the crash model)',
  'C13-m1': 'not reachable through the component: fetch, removal and block notification all run on the single mempool actor goroutine, puts take the list lock; only direct calls of unexported methods from several goroutines (the demo) expose it',
  'C03-no-rollback-on-rejected-tx': 'no observable difference found: state is staged into the block state only on success, and run-time failures are rolled back inside executeTx (fix 6)',
  'C05-abandoned-tx-index-kept': 'outside the statement: C05 requires main-chain transactions to resolve, it does not forbid stale index entries of abandoned blocks (they resolve to a stored block)',
